@@ -59,6 +59,37 @@ SETTINGS_FIELDS = {
 }
 
 
+def const_int(node):
+    """the value of an expression built from integer literals with + - * ** << >> // and unary minus, else None"""
+    if isinstance(node, ast.Constant) and isinstance(node.value, int) and not isinstance(node.value, bool):
+        return node.value
+    if isinstance(node, ast.UnaryOp) and isinstance(node.op, ast.USub):
+        v = const_int(node.operand)
+        return None if v is None else -v
+    if isinstance(node, ast.BinOp):
+        a, b = const_int(node.left), const_int(node.right)
+        if a is None or b is None:
+            return None
+        try:
+            if isinstance(node.op, ast.Add):
+                return a + b
+            if isinstance(node.op, ast.Sub):
+                return a - b
+            if isinstance(node.op, ast.Mult):
+                return a * b
+            if isinstance(node.op, ast.Pow) and 0 <= b <= 64:
+                return a ** b
+            if isinstance(node.op, ast.LShift) and 0 <= b <= 64:
+                return a << b
+            if isinstance(node.op, ast.RShift) and 0 <= b <= 64:
+                return a >> b
+            if isinstance(node.op, ast.FloorDiv) and b != 0:
+                return a // b
+        except Exception:  # noqa
+            return None
+    return None
+
+
 class Sig:
     """Signature of an already translated function."""
 
@@ -214,8 +245,9 @@ class FnTranslator:
         l, lt = self.expr(e.left, env, pre)
         r, rt = self.expr(e.right, env, pre)
         op = e.op
-        lit = e.right.value if (isinstance(e.right, ast.Constant) and isinstance(e.right.value, int)
-                                and not isinstance(e.right.value, bool)) else None
+        # the right operand as an integer literal - also when it is written as a constant expression (2 ** 16, 0xFFFF + 1,
+        # 1 << 16): `x % 2 ** 16` is the same operation as `x % 65536`
+        lit = const_int(e.right)
         # constant folding for 2 ** k
         if isinstance(op, ast.Pow):
             if (isinstance(e.left, ast.Constant) and lit is not None and lit >= 0
